@@ -301,6 +301,23 @@ def check_default(ctx):
     ctx.check(R, merged[0] if merged else fn, "nonlinear and linear defaults are merged into the prior", okm, "pars = %s" % (A.unparse(merged[0].value) if merged else None), key="default:merge", nontrivial=False)
 
 
+def _draw_list(pl):
+    """the drawn list is the values of a mapping D in key order: returns ({canonical spellings of the key list}, D) or (None, None)"""
+    from .C04 import _comp_equal
+    if isinstance(pl, ast.Call) and A.call_name(pl) == "list" and len(pl.args) == 1 and isinstance(pl.args[0], ast.Call) and A.last_attr(pl.args[0]) == "values" and not pl.args[0].args:
+        D = pl.args[0].func.value
+        ks = ["list(%s.keys())", "list(%s)", "%s.keys()", "%s"]
+        return {canon(parse(k % A.unparse(D))) for k in ks}, D
+    if isinstance(pl, ast.ListComp) and len(pl.generators) == 1 and not pl.generators[0].ifs and isinstance(pl.generators[0].target, ast.Name) \
+            and isinstance(pl.elt, ast.Subscript) and canon(pl.elt.slice) == pl.generators[0].target.id:
+        D = pl.elt.value
+        K = pl.generators[0].iter
+        dn = A.unparse(D)
+        own = {canon(parse(k % dn)) for k in ("list(%s.keys())", "list(%s)", "%s.keys()", "%s")}
+        return (own if canon(K) in own else {canon(K)}), D
+    return None, None
+
+
 def check_sum(ctx):
     R = "C09-SUM"
     ctx.rule(R, "JokerPrior.sample draws exactly the selected variables with one pm.draw(..., random_seed=rng); column `name` of the result is the draw of variable `name` "
@@ -313,12 +330,18 @@ def check_sum(ctx):
         ctx.violate(R, fn, "one joint pm.draw", "found %d pm.draw calls: variables drawn separately are no longer jointly distributed (K depends on P, e)" % len(draws), key="draw-count")
         return
     d = draws[0]
-    pl = A.inline_temporaries(d.args[0], A.enclosing_stmt(d), fn, only={"par_list", "par_names"})
-    okpl = canon(pl) in (canon(parse("[sub_pars[k] for k in list(sub_pars.keys())]")), canon(parse("list(sub_pars.values())")), canon(parse("[sub_pars[k] for k in sub_pars]")))
-    ctx.check(R, d, "draws the selected variables in name order", bool(okpl), "draw list `%s`" % A.unparse(pl)[:80], key="draw-list")
+    pl = A.inline_temporaries(d.args[0], A.enclosing_stmt(d), fn)
+    names_src, dsrc = _draw_list(pl)
+    ctx.check(R, d, "draws the selected variables in name order", names_src is not None, "draw list `%s`" % A.unparse(pl)[:80], key="draw-list")
     ctx.check(R, d, "draws `size` samples", canon(A.get_arg(d, None, "draws")) == "size", "draws=%s" % A.unparse(A.get_arg(d, None, "draws") or ast.Constant(value=None)), key="draw-size", nontrivial=False)
     # selection
-    sp = [s for s in A.walk_local(fn) if isinstance(s, ast.Assign) and canon(s.targets[0]) == "sub_pars"]
+    sp = []
+    if dsrc is not None and isinstance(dsrc, ast.Name):
+        ds = A.raw_reaching_def_stmt(dsrc.id, A.enclosing_stmt(d))
+        sp = [ds] if ds is not None else []
+    elif isinstance(dsrc, ast.DictComp):
+        sp = [ast.Assign(targets=[ast.Name(id="_", ctx=ast.Store())], value=dsrc, lineno=d.lineno, col_offset=0)]
+        sp[0]._parent = A.enclosing_stmt(d)
     oksel = False
     if len(sp) == 1 and isinstance(sp[0].value, ast.DictComp):
         dc = sp[0].value
@@ -326,18 +349,30 @@ def check_sum(ctx):
         kv = dc.generators[0].target
         kname = kv.elts[0].id if isinstance(kv, ast.Tuple) else "k"
         want = A.nnf_of_src("%s in self._nonlinear_equiv_units or ((%s in self._linear_equiv_units or %s in self._v0_offsets_equiv_units) and generate_linear)" % (kname, kname, kname))
-        oksel = cond is not None and A.nnf(cond) == want and canon(dc.generators[0].iter) == canon(parse("self.pars.items()")) and canon(dc.key) == kname
-    ctx.check(R, sp[0] if sp else fn, "selection = nonlinear (+ linear and offsets iff generate_linear)", oksel, "sub_pars = %s" % (A.unparse(sp[0].value)[:120] if sp else None), key="selection")
-    # raw_samples pairing
-    rs = [s for s in A.walk_local(fn) if isinstance(s, ast.Assign) and canon(s.targets[0]) == "raw_samples"]
+        oksel = cond is not None and A.nnf(cond) == want and canon(dc.generators[0].iter) == canon(parse("self.pars.items()")) and canon(dc.key) == kname \
+            and isinstance(kv, ast.Tuple) and len(kv.elts) == 2 and canon(dc.value) == canon(kv.elts[1])
+    ctx.check(R, d, "selection = nonlinear (+ linear and offsets iff generate_linear)", oksel, "selected variables = %s" % (A.unparse(sp[0].value)[:120] if sp else None), key="selection")
+    # pairing of names and draws: the mapping built by zipping the name list with the draw result
     okrs = False
-    if len(rs) == 1 and isinstance(rs[0].value, ast.DictComp):
-        dc = rs[0].value
+    why = "no {name: draw} mapping zipped from the names and the draw result"
+    for dc in [n for n in A.walk_local(fn) if isinstance(n, ast.DictComp) and len(n.generators) == 1]:
         it = dc.generators[0].iter
-        okrs = isinstance(it, ast.Call) and A.call_name(it) == "zip" and [canon(a) for a in it.args][:1] == ["par_names"] and canon(it.args[-1]) == "samples_values" \
-            and isinstance(dc.generators[0].target, ast.Tuple) and canon(dc.key) == canon(dc.generators[0].target.elts[0]) \
-            and canon(A.strip_casts(dc.value, any_astype=True)) == canon(dc.generators[0].target.elts[-1])
-    ctx.check(R, rs[0] if rs else fn, "draw i is stored under name i", okrs, "raw_samples = %s" % (A.unparse(rs[0].value)[:100] if rs else None), key="pairing")
+        if not (isinstance(it, ast.Call) and A.call_name(it) == "zip" and len(it.args) >= 2):
+            continue
+        st = A.enclosing_stmt(dc)
+        last = flow.resolve(it.args[-1], at=st)
+        if not (isinstance(last, ast.Call) and A.call_name(last) == "pm.draw"):
+            continue
+        first = A.inline_temporaries(it.args[0], st, fn)
+        tg = dc.generators[0].target
+        okrs = names_src is not None and canon(first) in names_src and isinstance(tg, ast.Tuple) and len(tg.elts) == len(it.args) and not dc.generators[0].ifs \
+            and canon(dc.key) == canon(tg.elts[0]) and canon(A.strip_casts(dc.value, any_astype=True)) == canon(tg.elts[-1])
+        why = "mapping = %s" % A.unparse(dc)[:110]
+        rs = [st]
+        break
+    else:
+        rs = []
+    ctx.check(R, rs[0] if rs else fn, "draw i is stored under name i", okrs, why, key="pairing")
     # logp loop
     lps = [c for c in A.calls_in(fn) if A.call_name(c) == "pm.logp"]
     if len(lps) != 1:
